@@ -122,7 +122,7 @@ func Prop(c Case, x *h.Ctx) *h.Violation {
 	}
 	data, err := os.ReadFile(path)
 	if err != nil {
-		panic(err)
+		panic(h.Infra{Msg: "harness file operation failed: " + err.Error()})
 	}
 	// native view 1: what the native reader returns
 	native, err := rio.ReadAll(path, 4096, len(recs)+1)
